@@ -488,6 +488,38 @@ pub fn model_clauses(m: &Model) -> Vec<Vec<Atom>> {
     for p in &m.cons {
         match (&p.cons, p.mode) {
             (Cons::PredClause { preds }, Mode::Post) => out.push(preds.iter().map(pred).collect()),
+            (Cons::ViewClause { atoms }, Mode::Post) => {
+                // a predicate over the view s*x + o is an atom over x (or trivially true / false)
+                let mut clause = vec![];
+                let mut tautology = false;
+                for a in atoms {
+                    let (s, num) = (a.term.scale as i64, a.val as i64 - a.term.offset as i64);
+                    let exact = num % s == 0;
+                    // floor and ceiling of num / s for either sign of s (div_euclid rounds down for s > 0, up for s < 0)
+                    let q = num.div_euclid(s);
+                    let floor = if s > 0 || exact { q } else { q - 1 };
+                    let ceil = if s < 0 || exact { q } else { q + 1 };
+                    match a.kind {
+                        PKind::Ge => clause.push(if s > 0 { Atom { var: a.term.var, op: 0, val: ceil } } else { Atom { var: a.term.var, op: 1, val: floor } }),
+                        PKind::Le => clause.push(if s > 0 { Atom { var: a.term.var, op: 1, val: floor } } else { Atom { var: a.term.var, op: 0, val: ceil } }),
+                        PKind::Eq => {
+                            if exact {
+                                clause.push(Atom { var: a.term.var, op: 2, val: num / s })
+                            }
+                        }
+                        PKind::Ne => {
+                            if exact {
+                                clause.push(Atom { var: a.term.var, op: 3, val: num / s })
+                            } else {
+                                tautology = true
+                            }
+                        }
+                    }
+                }
+                if !tautology {
+                    out.push(clause)
+                }
+            }
             (Cons::Clause { lits }, Mode::Post) => out.push(lits.iter().map(lit).collect()),
             (Cons::Clause { lits }, Mode::ImpliedBy(r)) => {
                 let mut c: Vec<Atom> = lits.iter().map(lit).collect();
